@@ -218,10 +218,13 @@ func (e *Executor) parseQuery(
 	doc, err := parser.ParseQueryWithTokenLimit(&ast.Source{Input: query}, e.parserTokenLimit)
 	if err != nil {
 		gqlErr, ok := err.(*gqlerror.Error)
-		if ok {
-			errcode.Set(gqlErr, errcode.ParseFailed)
-			return nil, gqlerror.List{gqlErr}
+		if !ok {
+			// e.g. the parser's "exceeded token limit": not a *gqlerror.Error, and the document
+			// returned with it is only the part that was read
+			gqlErr = gqlerror.Wrap(err)
 		}
+		errcode.Set(gqlErr, errcode.ParseFailed)
+		return nil, gqlerror.List{gqlErr}
 	}
 	stats.Parsing.End = graphql.Now()
 
